@@ -35,6 +35,10 @@ chk("C20", "poolsim", "exploration",
     "Arrival histories at the pools as a faulty gossip layer produces them (duplicates, late re-delivery, reordering, equivocating voters, empty bitfields): single and aggregate attestations over a synthetic committee table, attester/proposer slashings, exits, sync messages and contributions, interleaved with Search (all filter combinations), All, Prune and Reset (forward, same, back, jump; pool used with and without a warm-up Reset). Oracle: relational model - no panic; every returned item is an accepted one, unaltered and matching the filter; exact duplicates absorbed without changing query results; conflicting second single vote reported; every accepted aggregate covered by the returned bitfields until a Prune covers it; pruned items never returned; sync three-slot window contents exact across +-1 rotations (observed through a build-time overlay export, /repo untouched).",
     "Trusts the relational model. Signatures are unique labels (pools never verify). Bitfields whose length differs from the committee are not generated (not well-formed). After a Reset jump, overlapping window slots may be kept or cleared.",
     SIM + "seeded arrival-history search with duplicate/late/reordered delivery vs. set/relation model", "DESIGN.md section 6 C20")
+chk("C17", "schedsim", "exploration",
+    "2-4 real goroutines issue generated call sequences on ONE shared ProtoForkChoice / PubkeyCache (+ the CachedPubkeys it hands out, real BLS decompression) / AttestationPool / SyncCommitteePool / slashing and exit pools under a seeded cooperative scheduler that owns every lock acquire/release (build-time overlay shim around package sync; /repo untouched). Exactly one task runs at a time; hand-off uses raw pipe syscalls that create no happens-before edge, so the Go race detector (-race build) reports every conflicting access pair not ordered by the component's own locks although the run is serialised and replays exactly. Verdicts: race report (normalised to the pair of zrnt functions), 'all unfinished tasks blocked' (deterministic deadlock verdict incl. writer-preference of RWMutex), panic/fatal, and porcupine linearizability of the recorded call/return history (global event sequence stamps) against the sequential behaviour of the same code.",
+    "Schedules are sampled (seeded), <= 4 tasks x <= 4 calls; yield points exist at lock operations and call boundaries only (code that takes no lock is covered by the race detector, not by interleaving inside it); the sequential specification for linearizability is the implementation itself run single-threaded (its sequential correctness is the business of C09-C11/C16/C20); porcupine timeouts are counted as inconclusive.",
+    SIM + "seeded cooperative scheduler over real goroutines + race detector without scheduler-induced happens-before + porcupine linearizability", "DESIGN.md section 6 C17, section 7")
 
 pending = {
  "C01": "check not built yet (planned: chainsim + refspec); not claimed in this revision",
@@ -60,6 +64,7 @@ for pid in checks: pending.pop(pid, None)
 engines = [
  {"name": "cachesim", "path": "sim/cachesim", "serves_properties": ["C16"], "kind_free_text": "tree of deposit histories sharing real PubkeyCache handles vs. per-handle list model"},
  {"name": "poolsim", "path": "sim/poolsim", "serves_properties": ["C20"], "kind_free_text": "operation pools fed by faulty arrival histories vs. set/relation model"},
+ {"name": "schedsim", "path": "sim/schedsim", "serves_properties": ["C17"], "kind_free_text": "seeded cooperative scheduler over real goroutines on shared components; race detector; porcupine"},
  {"name": "fcsim", "path": "sim/fcsim", "serves_properties": ["C09", "C10", "C11"], "kind_free_text": "abstract block-tree histories on the real ProtoForkChoice/ProtoArray/ProtoVoteStore vs. naive GHOST + tree walk"},
 ]
 m = {
